@@ -19,7 +19,8 @@ driver's module globals / hook lists, once per implementation subprocess:
   the release/submit step that follows it in the main loop (``rts_end``);
   ``TaskPool.spawn_on_output`` / ``remove_if_complete`` are wrapped with begin/end
   markers so that the spawns caused by an output can be told from the spawns caused by
-  the removal of the task.
+  the removal of the task; ``TaskPool.queue_or_trigger`` (what `cylc trigger` does to its
+  target) is wrapped to record the target before and after (``qot_begin`` / ``qot_end``).
 """
 from __future__ import annotations
 
@@ -136,6 +137,16 @@ def patch_expire():
         finally:
             xev("soo_end", id=driver.tid(itask), out=output)
     TaskPool.spawn_on_output = n_soo
+
+    o_qot = TaskPool.queue_or_trigger
+
+    def n_qot(self, itask):
+        xev("qot_begin", t=xview(self, itask), in_pool=self._get_task_by_id(itask.identity) is itask)
+        try:
+            return o_qot(self, itask)
+        finally:
+            xev("qot_end", t=xview(self, itask))
+    TaskPool.queue_or_trigger = n_qot
 
     o_ric = TaskPool.remove_if_complete
 
